@@ -3,14 +3,16 @@
 # a relocated copy of /verif under /tmp/vdev is pointed at the seed's scratch worktree, the patch is applied there,
 # the quick checks run from the copy, the patch is reverted. Results are NOT evidence; the official test is
 # tools/seedtest.sh (apply to /repo, run the registered checks, revert).
+# env VDEV=<dir> (default /tmp/vdev) selects the relocated copy (one per concurrent invocation)
 # usage: devseed.sh <seed dir with wt/ and out/patch.diff> <Cxx> [Cyy...]     env HARNESS_SRC=<dir> to use another harness source
 d=$1; shift
 wt=$d/wt
 [ -d "$wt" ] || { echo "no worktree $wt"; exit 2; }
-mkdir -p /tmp/vdev
-rsync -a --delete --exclude .git --exclude .build --exclude evidence --exclude replays --exclude 'harness/target' /verif/ /tmp/vdev/verif/
-if [ -n "$HARNESS_SRC" ]; then rsync -a --exclude target "$HARNESS_SRC"/ /tmp/vdev/verif/harness/; fi
-cd /tmp/vdev/verif || exit 2
+VDEV=${VDEV:-/tmp/vdev}
+mkdir -p $VDEV
+rsync -a --delete --exclude .git --exclude .build --exclude evidence --exclude replays --exclude 'harness/target' /verif/ $VDEV/verif/
+if [ -n "$HARNESS_SRC" ]; then rsync -a --exclude target "$HARNESS_SRC"/ $VDEV/verif/harness/; fi
+cd $VDEV/verif || exit 2
 sed -i "s#path = \"/repo\"#path = \"$wt\"#" harness/Cargo.toml
 sed -i "s#\"/repo/Cargo.toml\"#\"$wt/Cargo.toml\"#g; s#cwd=\"/repo\"#cwd=\"$wt\"#g" check phases.py
 grep -q "$wt" harness/Cargo.toml || { echo "relocation failed"; exit 2; }
